@@ -31,7 +31,7 @@ def run(seed):
 seeds = sorted(os.listdir(os.path.join(VERIF, "seeded")))
 FILT = [a for a in sys.argv[1:] if not a.startswith("--")]
 if FILT:
-    seeds = [s for s in seeds if any(s.endswith(f) for f in FILT)]
+    seeds = [s for s in seeds if any(s.endswith(f) or s.startswith(f) for f in FILT)]
 with concurrent.futures.ThreadPoolExecutor(max_workers=6) as ex:
     results = list(ex.map(run, seeds))
 missed = 0
